@@ -80,6 +80,18 @@ void save_binary (program_t * prog, mem_block_t * includes, mem_block_t * patche
     /* assume all other sizes ok */
     return;
 
+  /* The string table is written with 16-bit lengths. We are called from the middle of
+   * compile_file(): raising an error here would leave the compiler busy for ever, so a
+   * program with such a string is simply not saved (like one that is too large). */
+  for (i = 0; i < (int) prog->num_strings; i++)
+    {
+      if (SHARED_STRLEN (prog->strings[i]) >= USHRT_MAX)
+        {
+          opt_trace (TT_COMPILE|1, "string too long for save_binary, not saved");
+          return;
+        }
+    }
+
   strcpy (file_name, CONFIG_STR (__SAVE_BINARIES_DIR__));
   if (file_name[0] == '/')
     file_name++;
@@ -187,13 +199,7 @@ void save_binary (program_t * prog, mem_block_t * includes, mem_block_t * patche
    */
   for (i = 0; i < (int) p->num_strings; i++)
     {
-      size_t length = SHARED_STRLEN (p->strings[i]);
-      if (length >= USHRT_MAX)
-        {
-          fclose (f);
-          /* TODO: remove the incomplete binary file */
-          error ("String too long for save_binary.\n");
-        }
+      size_t length = SHARED_STRLEN (p->strings[i]);	/* < USHRT_MAX, checked above */
       bin_count = (uint16_t)length;
       fwrite ((char *) &bin_count, sizeof (bin_count), 1, f);
       fwrite (p->strings[i], sizeof (char), bin_count, f);
